@@ -211,17 +211,30 @@ def kmapMap (kmap : Nat) (c : Nat) : Bytes :=
   | some e => e.2
   | none => [c % 256]
 
+/-- `led_readkey()`: a key; the rest of a multi-byte character is read and dropped -/
+def readKey : M Int := do
+  let c ← termRead
+  if c ≥ 192 then
+    let rec more : Nat → M Unit
+      | 0 => pure ()
+      | k + 1 => do
+        let _ ← termRead
+        more k
+    more (ucLen c.toNat - 1)
+    pure c
+  else pure c
+
 /-- `led_readchar(c, kmap)`, as the C string it returns (`none` = NULL) -/
 def readCharS (c : Int) (kmap : Nat) : M (Option Bytes) := do
   if c == 22 then
     let d ← termRead
     pure (some (if d.toNat % 256 == 0 then [] else [d.toNat % 256]))
   else if c == 11 then do
-    let c1 ← termRead
+    let c1 ← readKey
     if tkInt c1 then pure none
     else if c1 == 11 then pure (some [])
     else
-      let c2 ← termRead
+      let c2 ← readKey
       if tkInt c2 then pure none
       else pure ((Gen.digraphs.find? (fun d => d.1.headD 0 == c1.toNat && d.1.getD 1 0 == c2.toNat)).map (·.2))
   else if c ≥ 192 then
@@ -273,7 +286,7 @@ def ledLine (pref post : Bytes) (ai0 : Bytes) (aiMax : Nat) (insertMode : Bool) 
         let s ← get
         go f (sb ++ ((regGet s.ed 0).getD [])) ai c
       else if c == 18 then do
-        let y ← termRead
+        let y ← readKey
         let s ← get
         go f (if y > 0 then sb ++ ((regGet s.ed y.toNat).getD []) else sb) ai c
       else if c == 1 then do
